@@ -65,6 +65,7 @@ type Unit struct {
 	Source   string   // escaping closure: captured variable that is the source tensor of the back edge
 	Target   string   // escaping closure: captured variable that is the target tensor of the back edge
 	Implements string // abstract (function-type) contract this closure must satisfy
+	Uses     []string // lemmas assumed in this unit (each is proved separately)
 }
 
 type specParam struct {
@@ -81,6 +82,7 @@ type ghostStmt struct {
 type Macro struct {
 	Name   string
 	Params []string
+	Sorts  []string // non-nil: a named predicate (uninterpreted, with a defining axiom) rather than an inlined macro
 	Body   ast.Expr
 	Text   string
 }
@@ -89,6 +91,7 @@ type Axiom struct {
 	Name  string
 	C     Clause
 	Short string
+	Lemma bool // proved once per run from the domain axioms (pseudo-unit lemma.<name>), then available via "uses"
 }
 
 type Program struct {
@@ -188,7 +191,7 @@ func (p *Program) collectLits(u *Unit, body ast.Node) {
 	})
 }
 
-var clauseRe = regexp.MustCompile(`^(requires|ensures|modifies|loop|takes|public|assumed|bounded|returns|ghost|props|domain|defined|source|target|implements)\b(\[[A-Z0-9,]+\])?\s*(.*)$`)
+var clauseRe = regexp.MustCompile(`^(requires|ensures|modifies|loop|takes|public|assumed|bounded|returns|ghost|props|domain|defined|source|target|implements|uses)\b(\[[A-Z0-9,]+\])?\s*(.*)$`)
 
 func (p *Program) specErr(where, msg string) {
 	p.SpecErr = append(p.SpecErr, where+": "+msg)
@@ -226,7 +229,7 @@ func (p *Program) parseSpecs(pkg *packages.Package) {
 			first := strings.Fields(t)[0]
 			first = strings.SplitN(first, "[", 2)[0]
 			switch first {
-			case "func", "closure", "abstract", "requires", "ensures", "modifies", "loop", "takes", "public", "assumed", "bounded", "define", "axiom", "returns", "ghost", "props", "domain", "defined", "source", "target", "implements":
+			case "func", "closure", "abstract", "requires", "ensures", "modifies", "loop", "takes", "public", "assumed", "bounded", "define", "axiom", "returns", "ghost", "props", "domain", "defined", "source", "target", "implements", "uses", "lemma", "predicate":
 				joined = append(joined, line{t, l.where})
 			default:
 				if len(joined) == 0 {
@@ -261,6 +264,27 @@ func (p *Program) parseSpecs(pkg *packages.Package) {
 				}
 				u.Where = l.where
 				cur = u
+			case strings.HasPrefix(t, "predicate "):
+				m, err := parseMacro(strings.TrimSpace(t[10:]))
+				if err != nil {
+					p.specErr(l.where, err.Error())
+					continue
+				}
+				m.Sorts = []string{}
+				for i, prm := range m.Params {
+					fs := strings.Fields(prm)
+					if len(fs) != 2 {
+						p.specErr(l.where, "predicate parameters need 'name Sort'")
+						continue
+					}
+					m.Params[i] = fs[0]
+					srt := fs[1]
+					if srt == "Idx" {
+						srt = idxSort
+					}
+					m.Sorts = append(m.Sorts, srt)
+				}
+				p.Macros[m.Name] = m
 			case strings.HasPrefix(t, "define "):
 				m, err := parseMacro(strings.TrimSpace(t[7:]))
 				if err != nil {
@@ -268,7 +292,7 @@ func (p *Program) parseSpecs(pkg *packages.Package) {
 					continue
 				}
 				p.Macros[m.Name] = m
-			case strings.HasPrefix(t, "axiom "):
+			case strings.HasPrefix(t, "axiom "), strings.HasPrefix(t, "lemma "):
 				rest := strings.TrimSpace(t[6:])
 				i := strings.Index(rest, ":")
 				if i < 0 {
@@ -280,7 +304,7 @@ func (p *Program) parseSpecs(pkg *packages.Package) {
 					p.specErr(l.where, "axiom: "+err.Error())
 					continue
 				}
-				p.Axioms = append(p.Axioms, Axiom{Name: strings.TrimSpace(rest[:i]), C: Clause{Expr: e, Text: strings.TrimSpace(rest[i+1:]), Where: l.where}, Short: short})
+				p.Axioms = append(p.Axioms, Axiom{Name: strings.TrimSpace(rest[:i]), C: Clause{Expr: e, Text: strings.TrimSpace(rest[i+1:]), Where: l.where}, Short: short, Lemma: strings.HasPrefix(t, "lemma ")})
 			default:
 				if cur == nil {
 					p.specErr(l.where, "clause outside of a func: "+t)
@@ -330,6 +354,10 @@ func (p *Program) parseSpecs(pkg *packages.Package) {
 					cur.Target = rest
 				case "implements":
 					cur.Implements = rest
+				case "uses":
+					for _, x := range strings.Split(rest, ",") {
+						cur.Uses = append(cur.Uses, strings.TrimSpace(x))
+					}
 				case "modifies":
 					for _, x := range strings.Split(rest, ",") {
 						x = strings.TrimSpace(x)
